@@ -15,6 +15,7 @@ use jmespath::{ToJmespath, Variable};
 use crate::gen_doc::{gen_doc, gen_string, DocOpts};
 use crate::gen_typed::{gen_typed, schema_doc};
 use crate::imp::classify;
+use crate::model::J;
 use crate::props::c01::{seeded_bytes, spell_tree};
 use crate::runner::*;
 use crate::src::Src;
@@ -205,6 +206,13 @@ fn gen_case(src: &mut Src, st: &mut Stats) -> Value {
             src.pick(&["1.9999999999999998", "100.99999999999999", "0.30000000000000004", "9007199254740993.5", "2.2250738585072011e-308", "123456789.12345678", "5e-324"]).to_string()
         }
     };
+    // a table whose neighbouring rows are equal or differ in one leaf only
+    let near_rows = doc_kind && src.chance(28);
+    let expr = if near_rows {
+        src.pick(&["@", "rows", "rows[*]", "to_string(@)", "rows[?@]", "rows[*].*", "rows[*][*]", "[rows, rows]", "rows[::-1]", "rows[*].to_string(@)", "rows[1:]", "rows[-1]", "rows[*].n", "rows[*].[n, @]", "length(rows)"]).to_string()
+    } else {
+        expr
+    };
     let expr = if src.chance(24) {
         let n = long_numeral(src);
         match src.below(4) {
@@ -217,6 +225,22 @@ fn gen_case(src: &mut Src, st: &mut Stats) -> Value {
         expr
     };
     let data: Value = match kind {
+        k if near_rows => {
+            let _ = k;
+            let o = DocOpts { max_depth: 3, max_width: 3, ..DocOpts::default() };
+            let n = 2 + src.size(60);
+            let mut rows: Vec<J> = vec![];
+            for _ in 0..n {
+                if rows.is_empty() || src.chance(50) {
+                    rows.push(if src.flip() { crate::gen_doc::gen_object(src, 1, &o) } else { crate::gen_doc::gen_array(src, 1, &o) });
+                } else {
+                    let prev = rows[rows.len() - 1].clone();
+                    rows.push(if src.chance(100) { prev } else { crate::gen_doc::near_value(&prev, src) });
+                }
+            }
+            st.class("near-equal-neighbouring-rows");
+            json!({"rows": J::Arr(rows).to_value(), "n": 0})
+        }
         k if doc_kind && src.chance(30) => {
             // a big table: many array nodes, long rows
             let _ = k;
